@@ -1,6 +1,7 @@
 """C04 — parallel string sort: no use of a self-deleting step after a release point,
 add-before-enqueue, counters decided by their own RMW, phase arming, completion barrier,
-copy_back on all paths of the leaf sorter and before every range is reported finished (ctx.donesize).
+copy_back on all paths of the leaf sorter and before every range is reported finished (ctx.donesize),
+the classifier's descent routines agree with the bucket numbering (CLASSIFY-BUCKET), work sharing retires the level it gives away (FRONT-LEVEL).
 
 Verdict policy of this file: a violation is reported only on positive evidence (a CFG path, a row of a small
 decision table, a counted registration balance, a constant mask that differs from the builder's); a shape that is
@@ -2010,7 +2011,12 @@ def check_packed_lcp(ck, tu):
                                         if c:
                                             flags.add(c)
     if not n_writes or len(flags) != 1:
-        raise ir.AnalysisBroken("packing of the splitter LCP byte not recognised in the tree builders (flags %s)" % sorted(flags))
+        # the store is written in another way: take the flag from the bytes that the evaluation of build() produced (check_classifier)
+        ev_flags = getattr(tu, "_c04_eval_flags", None)
+        if not ev_flags or len(ev_flags) != 1 or bin(list(ev_flags)[0]).count("1") != 1:
+            raise ir.AnalysisBroken("packing of the splitter LCP byte not recognised in the tree builders (flags %s; evaluated %s)"
+                                    % (sorted(flags), sorted(ev_flags) if ev_flags else "-"))
+        flags = set(ev_flags)
     flag = flags.pop()
     value_mask = 0xFF ^ flag
     # packed fields: the arrays handed to classifier.build()
@@ -2180,6 +2186,998 @@ def check_array_bounds(ck, tu):
     return n_fn
 
 
+# ---------------------------------------------------------------------------------------------- CLASSIFY-BUCKET
+# A classifier (SSClassify*) maps a key to one of 2k+1 buckets over k splitters s_0 < .. < s_{k-1} (get_splitter(j)): bucket 2j holds the
+# keys strictly between s_{j-1} and s_j, bucket 2j+1 the keys equal to s_j.  Everything downstream relies on exactly that numbering (odd
+# buckets are sorted from depth + sizeof(key) on, even buckets from the common prefix of the two neighbouring splitters on, the LCP at a
+# bucket boundary is computed from get_splitter(b / 2)).  classify() stores, for every string, what one of the class's descent routines
+# (one key at a time, or several interleaved) yields; which routine a string meets depends on its position in the range only.  Hence every
+# routine whose result classify() stores must compute the same function of the key, namely 2 * #{splitters < key} + [key is a splitter].
+# Decided by evaluation (engine/skel.py with a flat memory, call frames and C++ integer conversions added here): build() is run on a sorted
+# sample of distinct keys, get_splitter() is read back, and every routine is run for every position a key can have relative to the
+# splitters (below all, equal to s_j, between s_j and s_j+1, above all).  Keys are only compared, so these positions are all behaviours.
+# No tlx code is executed.  A construct the evaluation does not model is `cannot decide`, never a verdict.
+from engine import skel
+import bisect
+import collections
+import re as _re
+
+_ARR = _re.compile(r"\[(\d+)\]\s*$")
+_UW = {"unsigned char": 8, "unsigned short": 16, "unsigned int": 32, "unsigned": 32, "unsigned long": 64, "unsigned long long": 64,
+       "size_t": 64, "std::size_t": 64, "uint8_t": 8, "uint16_t": 16, "uint32_t": 32, "uint64_t": 64,
+       "std::uint8_t": 8, "std::uint16_t": 16, "std::uint32_t": 32, "std::uint64_t": 64, "bool": 1}
+_SW = {"signed char": 8, "char": 8, "short": 16, "int": 32, "long": 64, "long long": 64, "ptrdiff_t": 64, "std::ptrdiff_t": 64,
+       "int8_t": 8, "int16_t": 16, "int32_t": 32, "int64_t": 64, "std::int8_t": 8, "std::int16_t": 16, "std::int32_t": 32, "std::int64_t": 64}
+_CASTK = ("ImplicitCastExpr", "CStyleCastExpr", "CXXStaticCastExpr", "CXXFunctionalCastExpr")
+
+
+def _bare_ty(t):
+    t = (t or "").strip()
+    changed = True
+    while changed:
+        changed = False
+        for pre in ("const ", "volatile "):
+            if t.startswith(pre):
+                t, changed = t[len(pre):].strip(), True
+        for suf in (" const", " volatile"):
+            if t.endswith(suf):
+                t, changed = t[:-len(suf)].strip(), True
+    return t
+
+
+_INT_TYPES = {}
+
+
+def _int_type(t):
+    """(signed, bits) of a builtin integer type name, else None"""
+    if t in _INT_TYPES:
+        return _INT_TYPES[t]
+    b = _bare_ty(t)
+    r = (False, _UW[b]) if b in _UW else ((True, _SW[b]) if b in _SW else None)
+    _INT_TYPES[t] = r
+    return r
+
+
+def _conv(v, ty):
+    """the C++ value of the integer v converted to type ty (two's complement); other values unchanged"""
+    if isinstance(v, bool):
+        v = int(v)
+    if not isinstance(v, int):
+        return v
+    it = _int_type(ty)
+    if it is None:
+        return v
+    signed, bits = it
+    if bits == 1:
+        return v != 0
+    v &= (1 << bits) - 1
+    if signed and v >> (bits - 1):
+        v -= 1 << bits
+    return v
+
+
+class _Unwritten(object):
+    """content of an element of the object's arrays that nothing has written yet"""
+    def __repr__(self):
+        return "<unwritten>"
+
+
+UNWRITTEN = _Unwritten()
+
+
+class EvalFault(Exception):
+    """the evaluation reached an operation without a defined result (count-zeros of 0, abort()): evidence, not a gap of the model"""
+
+
+class Machine(skel.Skel):
+    """engine/skel.py plus: a flat memory of cells for arrays (one cell per element, unallocated cells read as `unknown`, writes to them are
+    not modelled), a frame per call (recursion, reference parameters bound to locals of a suspended frame), constructors of other objects
+    (their fields shadow the ones of *this while they run), integer conversions and unsigned wrap-around by the type of the expression,
+    std::fill / fill_n, count-leading/trailing-zeros.  Everything else a call could be is `cannot decide`."""
+
+    def __init__(self, tu, fn):
+        skel.Skel.__init__(self, fn, env={}, unknown=self._unknown, event=self._event, tu=tu, max_iter=70000)
+        self.mem = {}
+        self.blocks, self.bases = [], []
+        self.top = 1 << 24
+        self.steps = 0
+
+    # ---- memory
+    def alloc(self, n, fill=None, soft=False):
+        """soft: an array whose length the rule made up (reads past its end are a gap of the model, not a finding)"""
+        base = self.top
+        self.top += n + 1024
+        self.blocks.append((base, n, soft))
+        self.bases.append(base)
+        if fill is not None:
+            for i in range(n):
+                self.mem[base + i] = fill(i) if callable(fill) else fill
+        return base
+
+    def allocated(self, a):
+        i = bisect.bisect_right(self.bases, a) - 1       # blocks are handed out at increasing addresses
+        return i >= 0 and a < self.bases[i] + self.blocks[i][1]
+
+    def load(self, key):
+        if isinstance(key, tuple) and key and key[0] == "mem":
+            a = key[1]
+            if a in self.mem:
+                return self.mem[a]
+            i = bisect.bisect_right(self.bases, a) - 1
+            if i >= 0 and a >= self.bases[i] + self.blocks[i][1]:
+                if self.blocks[i][2] or a >= self.bases[i] + self.blocks[i][1] + 1024:
+                    raise Undecidable("%s: a read outside the arrays of the model" % self.fn.loc)
+                raise EvalFault("a read of element %d of an array of %d elements (in %s, %s)"
+                                % (a - self.bases[i], self.blocks[i][1], self.fn.name, self.fn.loc))
+            return None
+        return skel.Skel.load(self, key)
+
+    def store(self, key, v):
+        if key is None:
+            raise Undecidable("%s: a value is stored through an expression that the evaluation does not model" % self.fn.loc)
+        if isinstance(key, tuple) and key[0] == "mem":
+            if not self.allocated(key[1]):
+                raise Undecidable("%s: a value is stored outside the arrays of the model" % self.fn.loc)
+            self.mem[key[1]] = v
+            return
+        self.env[key] = v
+
+    # ---- expressions
+    def ev(self, e):
+        self.steps += 1
+        if self.steps > 40000000:
+            raise Undecidable("%s: the evaluation of the classifier takes more than 4e7 steps" % self.fn.loc)
+        if e is not None and e["k"] in _CASTK and "cval" not in e and kids(e):
+            v = self.ev(kids(e)[0])
+            if e.get("cast") == "IntegralCast":
+                v = _conv(v, e.get("ty"))
+            elif e.get("cast") == "IntegralToBoolean" and isinstance(v, int):
+                v = v != 0
+            return v
+        return skel.Skel.ev(self, e)
+
+    def arith(self, op, a, b, e):
+        if a is UNWRITTEN or b is UNWRITTEN:
+            return None
+        try:
+            r = skel.Skel.arith(self, op, a, b, e)
+        except (ValueError, OverflowError):
+            raise Undecidable("%s: shift by a negative or huge count in the evaluation" % self.fn.nloc(e))
+        if isinstance(r, int) and not isinstance(r, bool):
+            if e["k"] == "CompoundAssignOperator" and e.get("cty"):
+                r = _conv(r, e["cty"])
+            r = _conv(r, e.get("ty"))
+        return r
+
+    def _unknown(self, e, sk):
+        if "callee" in e:
+            raise Undecidable("%s: the call of %s() is not modelled by the evaluation of the classifier" % (self.fn.nloc(e), e["callee"]["name"]))
+        return None
+
+    def _event(self, e, sk):
+        if "callee" not in e:
+            return NotImplemented
+        q = e["callee"].get("qname") or ""
+        nm = e["callee"]["name"]
+        args = [a for a in kids(e) if a is not None and a["k"] != "DefaultArg"]
+        if q in ("std::fill", "std::fill_n") and len(args) == 3:
+            a0, a1, v = self.ev(args[0]), self.ev(args[1]), self.ev(args[2])
+            if not (isinstance(a0, int) and isinstance(a1, int)) or isinstance(a0, bool) or isinstance(a1, bool):
+                raise Undecidable("%s: %s over a range that is not an array of the model" % (self.fn.nloc(e), q))
+            last = a1 if q == "std::fill" else a0 + a1
+            if not 0 <= last - a0 <= 1 << 20:
+                raise Undecidable("%s: %s over a range of %d elements" % (self.fn.nloc(e), q, last - a0))
+            for a in range(a0, last):
+                self.store(("mem", a), v)
+            return last if q == "std::fill_n" else None
+        if q in ("std::next", "std::prev", "std::distance", "std::advance") and 1 <= len(args) <= 2:
+            vals = [self.ev(a) for a in args]
+            if any(not isinstance(v, int) or isinstance(v, bool) for v in vals):
+                raise Undecidable("%s: %s on something that is not a pointer into an array of the model" % (self.fn.nloc(e), q))
+            if q == "std::distance":
+                if len(vals) != 2:
+                    return NotImplemented
+                return vals[1] - vals[0]
+            if q == "std::advance":
+                if len(vals) != 2:
+                    return NotImplemented
+                self.store(self.lvalue(args[0]), vals[0] + vals[1])
+                return None
+            step = vals[1] if len(vals) == 2 else 1
+            return vals[0] + step if q == "std::next" else vals[0] - step
+        if q in ("std::lower_bound", "std::upper_bound") and len(args) == 3:
+            lo_, hi_, v = self.ev(args[0]), self.ev(args[1]), self.ev(args[2])
+            if any(not isinstance(x_, int) or isinstance(x_, bool) for x_ in (lo_, hi_, v)) or not 0 <= hi_ - lo_ <= 1 << 20:
+                raise Undecidable("%s: %s over a range that is not an array of the model" % (self.fn.nloc(e), q))
+            cells = [self.load(("mem", a)) for a in range(lo_, hi_)]
+            if any(not isinstance(c_, int) or isinstance(c_, bool) for c_ in cells) or any(cells[i_] > cells[i_ + 1] for i_ in range(len(cells) - 1)):
+                raise Undecidable("%s: %s over a range that is not sorted / not known in the evaluation" % (self.fn.nloc(e), q))
+            return lo_ + (bisect.bisect_left(cells, v) if q == "std::lower_bound" else bisect.bisect_right(cells, v))
+        if q in ("tlx::clz", "tlx::ctz") or nm.startswith("__builtin_clz") or nm.startswith("__builtin_ctz"):
+            if len(args) != 1:
+                return NotImplemented
+            cal = self.tu.by_did.get(e["callee"].get("did")) if self.tu is not None else None
+            pty = cal.params[0].get("ty") if cal is not None and cal.params else strip_casts(args[0]).get("ty")
+            if nm.endswith("ll") or (nm.endswith("l") and nm.startswith("__builtin")):
+                pty = "unsigned long"
+            elif nm.startswith("__builtin"):
+                pty = "unsigned int"
+            it = _int_type(pty)
+            v = self.ev(args[0])
+            if it is None or not isinstance(v, int) or isinstance(v, bool):
+                return None
+            v &= (1 << it[1]) - 1
+            if v == 0:
+                raise EvalFault("%s(0), which has no defined value (%s)" % (nm, self.fn.nloc(e)))
+            if "clz" in nm:
+                return it[1] - v.bit_length()
+            return (v & -v).bit_length() - 1
+        if nm == "abort" and not args:
+            raise EvalFault("abort() (%s)" % self.fn.nloc(e))
+        return NotImplemented
+
+    # ---- statements
+    def stmt(self, s):
+        if s is not None and s["k"] == "DeclStmt":
+            rest = []
+            for v in kids(s):
+                if v["k"] != "VarDecl":
+                    rest.append(v)
+                    continue
+                self.alias.pop(v.get("did"), None)
+                m = _ARR.search(v.get("ty") or "")
+                if not m:
+                    rest.append(v)
+                    continue
+                n = int(m.group(1))
+                init = kids(v)[0] if kids(v) else None
+                vals = None
+                if init is not None:
+                    if init["k"] != "InitListExpr" or len(kids(init)) > n:
+                        raise Undecidable("%s: initialiser of a local array is not a list" % self.fn.nloc(v))
+                    vals = [self.ev(x) for x in kids(init)]
+                    vals += [0] * (n - len(vals))
+                base = self.alloc(n, (lambda i: vals[i]) if vals is not None else None)
+                self.env[v["did"]] = base
+            if rest:
+                skel.Skel.stmt(self, dict(s, ch=rest))
+            return
+        skel.Skel.stmt(self, s)
+
+    # ---- calls
+    def _frame_dids(self, fn):
+        c = getattr(fn, "_c04_frame", None)
+        if c is None:
+            c = set(p["did"] for p in fn.params)
+            for r in [i["e"] for i in fn.inits if i.get("e")] + [fn.body]:
+                for x in ir.walk(r):
+                    if x["k"] == "VarDecl" and "did" in x and not x.get("static"):
+                        c.add(x["did"])
+            fn._c04_frame = c
+        return c
+
+    def inline(self, e, args):
+        if self.tu is None:
+            return NotImplemented
+        callee = self.tu.by_did.get(e["callee"].get("did"))
+        if callee is None or callee.body is None or callee.kind in ("dtor", "lambda"):
+            return NotImplemented
+        actual, new_obj = args, False
+        if callee.kind == "ctor":
+            if e["k"] not in ("CXXConstructExpr", "CXXTemporaryObjectExpr"):
+                return NotImplemented
+            new_obj = True
+        elif e.get("member_call"):
+            if not args or strip_casts(args[0]) is None or strip_casts(args[0])["k"] != "This":
+                return NotImplemented
+            actual = args[1:]
+        elif e["k"] == "CXXOperatorCallExpr":
+            return NotImplemented
+        if len(actual) != len(callee.params):
+            return NotImplemented
+        if self.depth >= 80:
+            raise Undecidable("%s: the evaluation of the classifier nests more than 80 calls" % self.fn.nloc(e))
+        return self.call(callee, actual, new_obj)
+
+    def call(self, callee, actual, new_obj=False, values=None):
+        """runs callee in a frame of its own; actual: argument expressions of the current frame (or values: ready-made values)"""
+        binds = []
+        for i, p in enumerate(callee.params):
+            ty = (p.get("ty") or "").rstrip()
+            if values is not None:
+                binds.append(("val", p, values[i]))
+                continue
+            a = actual[i]
+            if ty.endswith("&&"):
+                raise Undecidable("%s: %s() takes an rvalue reference; not modelled" % (callee.loc, callee.name))
+            if ty.endswith("&"):
+                key = self.lvalue(a)
+                if key is None:
+                    if not ty.startswith("const "):
+                        raise Undecidable("%s: a reference parameter of %s() is bound to an expression that the evaluation does not model" % (callee.loc, callee.name))
+                    binds.append(("val", p, self.ev(a)))
+                    continue
+                if isinstance(key, int):
+                    # a local of the calling frame: it moves into a memory cell, so that the callee (possibly another activation of the
+                    # same function, with locals of the same identity) and the caller see one object
+                    addr = self.alloc(1)
+                    self.mem[addr] = self.env.get(key)
+                    self.alias[key] = ("mem", addr)
+                    key = ("mem", addr)
+                binds.append(("ref", p, key))
+            else:
+                binds.append(("val", p, self.ev(a)))
+        dids = self._frame_dids(callee)
+        saved_env = dict((d, self.env.pop(d)) for d in dids if d in self.env)
+        saved_alias = dict((d, self.alias.pop(d)) for d in dids if d in self.alias)
+        saved_fields = None
+        if new_obj:
+            saved_fields = dict((k, v) for k, v in self.env.items() if isinstance(k, tuple) and k and k[0] == "field")
+            for k in saved_fields:
+                del self.env[k]
+        for kind, p, v in binds:
+            if kind == "ref":
+                self.alias[p["did"]] = v
+            else:
+                self.env[p["did"]] = v
+        saved_fn = self.fn
+        self.fn = callee
+        self.depth += 1
+        ret = None
+        try:
+            if new_obj:
+                for i in callee.inits:
+                    if i.get("field") and i.get("e") is not None:
+                        self.env[("field", i["field"])] = self.ev(i["e"])
+                    elif i.get("e") is not None:
+                        raise Undecidable("%s: base / delegating initialiser of %s is not modelled" % (callee.loc, callee.name))
+            try:
+                self.run(kids(callee.body))
+            except skel.Return as r_:
+                ret = r_.v
+        finally:
+            self.fn = saved_fn
+            self.depth -= 1
+            for d in dids:
+                self.env.pop(d, None)
+                self.alias.pop(d, None)
+            self.env.update(saved_env)
+            self.alias.update(saved_alias)
+            if saved_fields is not None:
+                for k in [k for k in self.env if isinstance(k, tuple) and k and k[0] == "field"]:
+                    del self.env[k]
+                self.env.update(saved_fields)
+        return ret
+
+
+def _ptr_to(ty):
+    """(pointee type, pointee is const) of a pointer / array parameter type, else None"""
+    t = (ty or "").strip()
+    if t.endswith("*"):
+        t = t[:-1].strip()
+    elif _ARR.search(t):
+        t = _ARR.sub("", t).strip()
+    else:
+        return None
+    return _bare_ty(t), (t.startswith("const ") or t.endswith(" const"))
+
+
+def classifier_classes(tu):
+    """{(record, targs): [functions]} of the classifier classes in the IR"""
+    out = {}
+    for fn in tu.functions:
+        if fn.record and fn.record.startswith(NS + "SSClassify") and fn.body is not None and fn.kind in ("method", "fn"):
+            out.setdefault((fn.record, tuple(fn.rtargs or [])), []).append(fn)
+    return out
+
+
+def stored_routines(fns, by_did):
+    """the member functions whose result classify() stores: [(function, call node, classify instance)]; classify() is the entry point the
+    sorters use (classifier.classify(strset, begin, end, bktout, depth))"""
+    own = set(f.did for f in fns)
+    out, seen = [], set()
+    cls = [f for f in fns if f.name == "classify"]
+    if not cls:
+        raise Undecidable("%s: no instance of classify() of %s is in the IR" % (fns[0].loc, fns[0].record.split("::")[-1]))
+    for c in cls:
+        found = False
+        for x in c.nodes():
+            if "callee" in x and x["callee"].get("did") in own and x.get("member_call") and kids(x) and strip_casts(kids(x)[0]) is not None \
+                    and strip_casts(kids(x)[0])["k"] == "This":
+                cal = by_did[x["callee"]["did"]]
+                if cal.name in ("classify",):
+                    continue
+                found = True
+                if cal.did not in seen:
+                    seen.add(cal.did)
+                    out.append((cal, x, c))
+        if not found:
+            raise Undecidable("%s: classify() calls no member function of the classifier; a classification written out inside classify() is not evaluated" % c.loc)
+    return out
+
+
+def bind_routine(fn, key_ty):
+    """('scalar', index of the key parameter) | ('vector', index of the key array, index of the output array); Undecidable otherwise"""
+    keys, outs, other = [], [], []
+    for i, p in enumerate(fn.params):
+        ty = (p.get("ty") or "").strip()
+        pt = _ptr_to(ty)
+        if pt is not None:
+            if pt[0] == key_ty and pt[1]:
+                keys.append(("vec", i))
+            elif _int_type(pt[0]) is not None and not pt[1]:
+                outs.append(i)
+            else:
+                other.append(i)
+        elif _bare_ty(ty.rstrip("&").strip()) == key_ty and (not ty.endswith("&") or ty.startswith("const ")):
+            keys.append(("one", i))
+        else:
+            other.append(i)
+    if not other and len(keys) == 1 and keys[0][0] == "one" and not outs:
+        return ("scalar", keys[0][1])
+    if not other and len(keys) == 1 and keys[0][0] == "vec" and len(outs) == 1:
+        return ("vector", keys[0][1], outs[0])
+    raise Undecidable("%s: the parameters of %s() are not (key) or (keys, buckets out); how classify() uses it is not evaluated" % (fn.loc, fn.name))
+
+
+VEC_SLOTS = 64
+
+
+def check_classifier(ck, tu):
+    n_inst = 0
+    for (rec, targs), fns in sorted(classifier_classes(tu).items()):
+        short = "%s<%s>" % (rec.split("::")[-1], ", ".join(targs))
+        recs = [r for r in tu.records if r.get("qname") == rec and tuple(r.get("targs") or []) == targs]
+        if len(recs) != 1:
+            raise Undecidable("%s: the layout of %s is not in the IR" % (fns[0].loc, short))
+        statics = dict((s_["name"], s_.get("val")) for s_ in recs[0].get("statics", []))
+        k = statics.get("num_splitters")
+        if not isinstance(k, int) or not 1 <= k <= 1 << 15:
+            raise Undecidable("%s: %s::num_splitters is not a constant in the IR" % (fns[0].loc, short))
+        build = [f for f in fns if f.name == "build"]
+        gets = [f for f in fns if f.name == "get_splitter"]
+        if len(build) != 1 or len(gets) != 1 or len(gets[0].params) != 1:
+            raise Undecidable("%s: build() / get_splitter(i) of %s are not in the IR" % (fns[0].loc, short))
+        build, gets = build[0], gets[0]
+        key_ty = _bare_ty(targs[0]) if targs else None
+        if _int_type(key_ty) is None or _int_type(key_ty)[0]:
+            raise Undecidable("%s: the key type of %s (%s) is not an unsigned integer" % (fns[0].loc, short, key_ty))
+        routines = stored_routines(fns, tu.by_did)
+        kinds = [(f, bind_routine(f, key_ty), x, c) for f, x, c in routines]
+        # ---- the object and the sample
+        m = Machine(tu, build)
+        for f in recs[0].get("fields", []):
+            a = _ARR.search(f.get("ty") or "")
+            m.env[("field", f["name"])] = m.alloc(int(a.group(1)), UNWRITTEN) if a else None
+        nsamp = 2 * k
+        gap = 16
+        sample = lambda i: gap * (i + 1) + (0 if (i // 2) % 3 == 0 else 3)       # a third of the keys end in a zero byte (`done` splitters)
+        samples = m.alloc(nsamp, sample)
+        lcp = m.alloc(k + 1)
+        vals = []
+        for p in build.params:
+            pt = _ptr_to(p.get("ty"))
+            if pt is not None and pt[0] == key_ty:
+                vals.append(samples)
+            elif pt is not None and _int_type(pt[0]) == (False, 8) and not pt[1]:
+                vals.append(lcp)
+            elif pt is None and _int_type(p.get("ty")) is not None:
+                vals.append(nsamp)
+            else:
+                raise Undecidable("%s: the parameters of build() are not (samples, number of samples, splitter LCP array)" % build.loc)
+        if sorted(vals) != sorted([samples, lcp, nsamp]):
+            raise Undecidable("%s: the parameters of build() are not (samples, number of samples, splitter LCP array)" % build.loc)
+        stage = "build() on %d sorted distinct samples" % nsamp
+        try:
+            m.call(build, None, values=vals)
+            spl = []
+            for j in range(k):
+                stage = "get_splitter(%d) after build()" % j
+                spl.append(m.call(gets, None, values=[j]))
+        except skel.Diverges as d_:
+            raise Undecidable("%s: a loop of the classifier does not end in the evaluation" % build.nloc(d_.loop))
+        except EvalFault as f_:
+            ck.violation("CLASSIFY-BUCKET", gets.qname if "get_splitter" in stage else build.qname, "%s:fault" % rec.split("::")[-1],
+                         "the evaluation of %s reaches %s" % (stage, f_), gets.loc if "get_splitter" in stage else build.loc)
+            continue
+        if any(not isinstance(v, int) or isinstance(v, bool) for v in spl):
+            j = [i for i, v in enumerate(spl) if not isinstance(v, int) or isinstance(v, bool)][0]
+            if spl[j] is UNWRITTEN:
+                ck.violation("CLASSIFY-BUCKET", gets.qname, "%s:splitters" % rec.split("::")[-1],
+                             "after build() on %d sorted distinct samples get_splitter(%d) returns an element of the classifier's arrays that build() "
+                             "never wrote: the sorters take the splitter of bucket b from get_splitter(b / 2)" % (nsamp, j), gets.loc)
+                continue
+            raise Undecidable("%s: get_splitter(%d) has no value after build() in the evaluation" % (gets.loc, j))
+        sample_set = set(sample(i) for i in range(nsamp))
+        # the packed bytes build() wrote: LCP of neighbouring splitters (at most the key length, < 16) | flag of a splitter that ends in a zero byte
+        packed = [m.mem.get(lcp + j) for j in range(k + 1)]
+        if all(isinstance(v, int) and not isinstance(v, bool) for v in packed):
+            tu.__dict__.setdefault("_c04_eval_flags", set()).update(v & 0xF0 for v in packed if v & 0xF0)
+        bad = [j for j in range(k) if spl[j] not in sample_set or (j and spl[j] <= spl[j - 1])]
+        tag0 = "%s" % short
+        if bad:
+            j = bad[0]
+            ck.violation("CLASSIFY-BUCKET", gets.qname, "%s:splitters" % rec.split("::")[-1],
+                         "after build() on %d sorted distinct samples get_splitter(%d) = %s and get_splitter(%d) = %s: the splitters are not the "
+                         "samples in increasing order, on which the numbering of the buckets (2j: between splitters j-1 and j, 2j+1: equal to "
+                         "splitter j) rests" % (nsamp, max(j - 1, 0), spl[max(j - 1, 0)], j, spl[j]), gets.loc)
+            continue
+        # ---- every position of a key relative to the splitters
+        keys = []
+        for j in range(k):
+            keys.append((spl[j] - 1, 2 * j, "a key between splitter %d and splitter %d" % (j - 1, j) if j else "a key below all splitters"))
+            keys.append((spl[j], 2 * j + 1, "a key equal to splitter %d" % j))
+        keys.append((spl[-1] + 1, 2 * k, "a key above all splitters"))
+        results = {}
+        faulted = False
+        for fn, kind, x, c in kinds:
+            res = []
+            cur = None
+            try:
+                if kind[0] == "scalar":
+                    for key, want, what in keys:
+                        cur = what
+                        res.append(m.call(fn, None, values=[key]))
+                else:
+                    karr = m.alloc(VEC_SLOTS, soft=True)
+                    oarr = m.alloc(VEC_SLOTS, soft=True)
+                    width, pos = None, 0
+                    while pos < len(keys):
+                        for i in range(VEC_SLOTS):
+                            m.mem[karr + i] = keys[(pos + i) % len(keys)][0]
+                            m.mem.pop(oarr + i, None)
+                        vals = [None] * len(fn.params)
+                        vals[kind[1]], vals[kind[2]] = karr, oarr
+                        cur = "%s (and the %d key positions that follow)" % (keys[pos][2], VEC_SLOTS - 1)
+                        m.call(fn, None, values=vals)
+                        wr = [i for i in range(VEC_SLOTS) if (oarr + i) in m.mem]
+                        if not wr or wr != list(range(len(wr))) or (width is not None and len(wr) != width):
+                            raise Undecidable("%s: %s() does not write a fixed number of leading elements of its output array (%s)" % (fn.loc, fn.name, wr))
+                        width = len(wr)
+                        for i in range(width):
+                            if pos + i < len(keys):
+                                res.append(m.mem[oarr + i])
+                        pos += width
+            except skel.Diverges as d_:
+                raise Undecidable("%s: a loop of %s() does not end in the evaluation" % (fn.nloc(d_.loop), fn.name))
+            except EvalFault as f_:
+                n_inst += 1
+                faulted = True
+                ck.violation("CLASSIFY-BUCKET", fn.qname, "%s:%s:fault" % (rec.split("::")[-1], fn.name),
+                             "the evaluation of %s() for %s reaches %s; classify() stores the result of %s()" % (fn.name, cur, f_, fn.name), fn.loc)
+                res = None
+            results[fn.did] = res
+        if faulted:
+            continue
+        for fn, kind, x, c in kinds:
+            res = results[fn.did]
+            tag = "%s::%s" % (short, fn.name)
+            n_inst += 1
+            unk = [i for i, r in enumerate(res) if not isinstance(r, int) or isinstance(r, bool)]
+            if unk:
+                raise Undecidable("%s: %s() yields no value for %s in the evaluation" % (fn.loc, fn.name, keys[unk[0]][2]))
+            wrong = [i for i, r in enumerate(res) if r != keys[i][1]]
+            if not wrong:
+                ck.ok("CLASSIFY-BUCKET", tag, "%d splitters from %d samples, %d key positions: bucket = 2 * #{splitters < key} + [key is a splitter]; "
+                      "result stored by classify() (line %s)" % (k, nsamp, len(keys), x.get("l")))
+                continue
+            i = wrong[0]
+            others = ["%s() yields %d" % (g.name, results[g.did][i]) for g, kd, x2, c2 in kinds if g is not fn and isinstance(results[g.did][i], int)
+                      and results[g.did][i] != res[i]]
+            ck.violation("CLASSIFY-BUCKET", fn.qname, "%s:%s" % (rec.split("::")[-1], fn.name),
+                         "%s() puts %s into bucket %d; the numbering of the buckets (2j: keys between splitters j-1 and j, 2j+1: keys equal to "
+                         "splitter j) needs bucket %d%s. classify() stores the result of %s() for the strings that meet it by their position in "
+                         "the range only (%d of %d key positions differ; %d splitters built from %d sorted samples)"
+                         % (fn.name, keys[i][2], res[i], keys[i][1], ("; " + ", ".join(others) + " for the same key") if others else "",
+                            fn.name, len(wrong), len(keys), k, nsamp), fn.loc)
+    return n_inst
+
+
+# ---------------------------------------------------------------------------------------------- FRONT-LEVEL
+# PS5SmallsortJob keeps its pending work on stacks of levels (std::vector members) that are consumed from both ends: the owner works on the
+# top (back()), work sharing gives away the OLDEST live level - the element at the front cursor (an integer member) - and retires it by
+# advancing that cursor; levels below the cursor are finished by others and only get their LCPs at the very end.  So in a function that
+# gives buckets of a level of a stack C away (ctx.enqueue), that level must be one of those the call retires: with F0 the cursor at entry, Fb
+# where the level is taken and F1 at the return, the level index(Fb) must lie in F0 .. F1-1 on every path (the usual form: C[F] taken, F
+# advanced once afterwards).  Which element an expression denotes is decided by evaluating its index for stacks of 1..4 elements and every
+# cursor position with a live level; the advances of the cursor before / after are counted on the CFG (fewest on any path).  A
+# counterexample with two or more elements is reported only if the class is seen to push onto a non-empty stack.
+STACK_PUSH = ("emplace_back", "push_back")
+STACK_POP = ("pop_back", "clear", "resize", "erase")
+
+
+def vector_field(fn, e):
+    """name of the std::vector member of *this that e denotes (through aliases), else None"""
+    r = resolve(fn, e)
+    if r is not None and this_member_access(r) and (r.get("ty") or "").replace("const ", "").strip().startswith("std::vector<"):
+        return r["member"]
+    return None
+
+
+def int_field(fn, e):
+    r = peel(e)
+    if r is not None and this_member_access(r) and _int_type(r.get("ty")) is not None:
+        return r["member"]
+    return None
+
+
+def level_index(fn, e, sizes, fields, depth=0):
+    """value of an integer expression over the sizes of vector members and the values of integer members given; None if not understood"""
+    e = peel(e)
+    if e is None or depth > 10:
+        return None
+    c = const_int(e)
+    if c is not None:
+        return c
+    f = int_field(fn, e)
+    if f is not None:
+        return fields.get(f)
+    if "callee" in e and e.get("member_call") and e["callee"]["name"] == "size" and len(kids(e)) == 1:
+        v = vector_field(fn, kids(e)[0])
+        return sizes.get(v) if v else None
+    if e["k"] == "DeclRefExpr":
+        v = stable_local(fn, e["ref"]["id"])
+        if v is not None and not (v.get("isref") or (v.get("ty") or "").strip().endswith("&")):
+            return level_index(fn, kids(v)[0], sizes, fields, depth + 1)
+        return None
+    b = match.binop(e, ("+", "-", "*")) if e["k"] == "BinaryOperator" else None
+    if b:
+        l, r = level_index(fn, b[1], sizes, fields, depth + 1), level_index(fn, b[2], sizes, fields, depth + 1)
+        if l is None or r is None:
+            return None
+        return l + r if b[0] == "+" else (l - r if b[0] == "-" else l * r)
+    if e["k"] == "ConditionalOperator" and len(kids(e)) == 3:
+        c = level_cond(fn, kids(e)[0], sizes, fields, depth + 1)
+        if c is None:
+            return None
+        return level_index(fn, kids(e)[1] if c else kids(e)[2], sizes, fields, depth + 1)
+    if "callee" in e and e["callee"]["name"] in ("min", "max") and (e["callee"].get("qname") or "").startswith("std::"):
+        a = [level_index(fn, x, sizes, fields, depth + 1) for x in kids(e) if x is not None and x["k"] != "DefaultArg"]
+        if len(a) == 2 and None not in a:
+            return min(a) if e["callee"]["name"] == "min" else max(a)
+    return None
+
+
+def level_cond(fn, e, sizes, fields, depth=0):
+    """truth value of a condition over the sizes of the stacks and the cursors; None if not understood"""
+    e = peel(e)
+    if e is None or depth > 10:
+        return None
+    if e["k"] == "UnaryOperator" and e.get("op") == "!" and match.binop(e, ("==", "!=")) is None:
+        v = level_cond(fn, kids(e)[0], sizes, fields, depth + 1)
+        return None if v is None else (not v)
+    if e["k"] == "BinaryOperator" and e.get("op") in ("&&", "||"):
+        l = level_cond(fn, kids(e)[0], sizes, fields, depth + 1)
+        r = level_cond(fn, kids(e)[1], sizes, fields, depth + 1)
+        if l is None or r is None:
+            return None
+        return (l and r) if e["op"] == "&&" else (l or r)
+    c = match.binop(e, ("==", "!=", "<", ">", "<=", ">="))
+    if c:
+        l, r = level_index(fn, c[1], sizes, fields, depth + 1), level_index(fn, c[2], sizes, fields, depth + 1)
+        if l is None or r is None or l < 0 or r < 0:
+            return None         # (unsigned operands: a negative intermediate value would wrap around)
+        return _CMP[c[0]](l, r)
+    if "callee" in e and e.get("member_call") and e["callee"]["name"] == "empty" and len(kids(e)) == 1:
+        v = vector_field(fn, kids(e)[0])
+        return (sizes[v] == 0) if v in sizes else None
+    return None
+
+
+def level_position(fn, e, sizes, fields, depth=0):
+    """(vector member, offset from its first element) of an iterator / pointer expression: C.begin() C.data() C.end() +- k, &C[k]"""
+    e = peel(e)
+    if e is None or depth > 10:
+        return None
+    if "callee" in e and e.get("member_call") and len(kids(e)) == 1 and e["callee"]["name"] in ("begin", "cbegin", "data", "end", "cend"):
+        v = vector_field(fn, kids(e)[0])
+        if v is None or v not in sizes:
+            return None
+        return (v, sizes[v] if e["callee"]["name"] in ("end", "cend") else 0)
+    if e["k"] == "UnaryOperator" and e.get("op") == "&":
+        el = level_element(fn, kids(e)[0], sizes, fields, depth + 1)
+        return el
+    b = match.binop(e, ("+", "-"))
+    if b:
+        for pe, ke, sign in ((b[1], b[2], 1 if b[0] == "+" else -1),) + (((b[2], b[1], 1),) if b[0] == "+" else ()):
+            p_ = level_position(fn, pe, sizes, fields, depth + 1)
+            k_ = level_index(fn, ke, sizes, fields, depth + 1)
+            if p_ is not None and k_ is not None:
+                return (p_[0], p_[1] + sign * k_)
+    if e["k"] == "DeclRefExpr":
+        v = stable_local(fn, e["ref"]["id"])
+        if v is not None:
+            return level_position(fn, kids(v)[0], sizes, fields, depth + 1)
+    return None
+
+
+def level_element(fn, e, sizes, fields, depth=0):
+    """(vector member, index) of the element of a std::vector member of *this that e denotes: C[i] C.at(i) C.back() C.front() *(C.begin() + i)
+    *(C.end() - i) C.data()[i] *C.rbegin(); None when e is of another form"""
+    e = peel(e)
+    if e is None or depth > 10:
+        return None
+    ip = match.index_parts(e)
+    if ip:
+        v = vector_field(fn, ip[0])
+        i = level_index(fn, ip[1], sizes, fields, depth + 1)
+        if v is not None:
+            return (v, i) if i is not None and v in sizes else None
+        p_ = level_position(fn, ip[0], sizes, fields, depth + 1)
+        return (p_[0], p_[1] + i) if p_ is not None and i is not None else None
+    if "callee" in e and e.get("member_call") and len(kids(e)) == 1 and e["callee"]["name"] in ("back", "front"):
+        v = vector_field(fn, kids(e)[0])
+        if v is not None and v in sizes:
+            return (v, sizes[v] - 1 if e["callee"]["name"] == "back" else 0)
+        return None
+    d = match.deref_of(e)
+    if d is not None:
+        dd = peel(d)
+        if dd is not None and "callee" in dd and dd.get("member_call") and len(kids(dd)) == 1 and dd["callee"]["name"] in ("rbegin", "crbegin"):
+            v = vector_field(fn, kids(dd)[0])
+            return (v, sizes[v] - 1) if v is not None and v in sizes else None
+        return level_position(fn, d, sizes, fields, depth + 1)
+    return None
+
+
+def mentions_vector(fn, e, names):
+    return any(this_member_access(z) and z.get("member") in names for z in ir.walk(e))
+
+
+def stack_cursor_pairs(fns):
+    """{(vector member C, integer member F)}: F indexes C (C[F], C[--F], C.begin() + F ..) or is compared with C.size() somewhere in the class"""
+    pairs = set()
+    for fn in fns:
+        for x in fn.nodes():
+            ip = match.index_parts(x) if (x["k"] == "ArraySubscriptExpr" or "callee" in x) else None
+            if ip:
+                v = vector_field(fn, ip[0])
+                if v:
+                    for z in ir.walk(ip[1]):
+                        f = int_field(fn, z)
+                        if f:
+                            pairs.add((v, f))
+            c = match.binop(x, ("==", "!=", "<", ">", "<=", ">=")) if x["k"] in ("BinaryOperator", "CXXOperatorCallExpr", "UnaryOperator") else None
+            if c:
+                for a, b in ((c[1], c[2]), (c[2], c[1])):
+                    a_ = peel(a)
+                    f = int_field(fn, b)
+                    if f and a_ is not None and "callee" in a_ and a_.get("member_call") and a_["callee"]["name"] == "size" and len(kids(a_)) == 1:
+                        v = vector_field(fn, kids(a_)[0])
+                        if v:
+                            pairs.add((v, f))
+    return pairs
+
+
+def can_hold_two(fns, C):
+    """the class pushes onto C at a point that another push reaches without passing a pop: two live levels exist"""
+    for fn in fns:
+        if not fn.cfg:
+            continue
+        push = [x for x in fn.nodes() if "callee" in x and x.get("member_call") and x["callee"]["name"] in STACK_PUSH and kids(x) and vector_field(fn, kids(x)[0]) == C]
+        if not push:
+            continue
+        g = cfgm.CFG(fn)
+        pops = [g.pos(x) for x in fn.nodes() if "callee" in x and x.get("member_call") and x["callee"]["name"] in STACK_POP and kids(x)
+                and vector_field(fn, kids(x)[0]) == C and g.pos(x)]
+        pp = [g.pos(x) for x in push if g.pos(x)]
+        for a in pp:
+            for b in pp:
+                if g.path_between_avoiding(a, b, pops) is not None:
+                    return True
+    return False
+
+
+def check_front_level(ck, tu):
+    groups = {}
+    for fn in tu.functions:
+        if fn.record == SMALL and fn.body is not None and fn.kind not in ("lambda", "dtor", "ctor"):
+            groups.setdefault(tuple(fn.rtargs or []), []).append(fn)
+    n = 0
+    for rt, fns in sorted(groups.items()):
+        pairs = stack_cursor_pairs(fns)
+        vectors = set(c for c, f in pairs)
+        for fn in fns:
+            if not fn.cfg:
+                continue
+            for C, F in sorted(pairs):
+                writes = []
+                for x in fn.nodes():
+                    if this_member_access(x) and x.get("member") == F and _is_write(fn, x):
+                        e, par = x, fn.parent(x)
+                        while par is not None and par["k"] in WRAPPERS:
+                            e, par = par, fn.parent(par)
+                        d = match.field_delta(par, F) if par is not None else None
+                        amt = None if d is None else (1 if d[1] == 1 else const_int(d[1]))
+                        writes.append((par if par is not None else x, "inc" if d and d[0] == "+" and amt == 1 else "other"))
+                incs = [w for w, kd in writes if kd == "inc"]
+                if not incs and not any(ctx_enqueue(x) for x in fn.nodes()):
+                    continue
+                n += check_front_level_fn(ck, tu, fns, fn, C, F, vectors, set(f for c, f in pairs), writes, incs)
+    return n
+
+
+def check_front_level_fn(ck, tu, fns, fn, C, F, vectors, cursors, writes, incs):
+    g = cfgm.CFG(fn)
+    tag = "%s::%s [%s] %s[%s]" % (fn.record.split("::")[-1], fn.name, inst(fn), C, F)
+    sig = "%s:%s" % (fn.name, C)
+    others = [w for w, kd in writes if kd != "inc"]
+    ipos = []
+    for w in incs:
+        p = g.pos_deep(w)
+        if p is None:
+            raise Undecidable("%s: the increment of %s has no position in the CFG" % (fn.nloc(w), F))
+        ipos.append(p)
+    hands = [x for x in fn.nodes() if ctx_enqueue(x)]      # (ranges the owner reports itself through ctx.donesize are not given away)
+    if incs and not any(ctx_enqueue(h) for h in hands):
+        raise Undecidable("%s: %s advances the front cursor %s of %s but enqueues nothing itself; which level it gives away is not derived" % (fn.loc, fn.name, F, C))
+    sizes0, fields0 = dict((v, 2) for v in vectors), dict((f, 0) for f in cursors)
+
+    def levels_in(e, at, seen, out):
+        """element accesses of the stacks that the value of e is made from: [(access node, position where it is evaluated)]"""
+        stack = [e]
+        while stack:
+            y = stack.pop()
+            if y is None:
+                continue
+            el = level_element(fn, y, sizes0, fields0) if (y["k"] in ("ArraySubscriptExpr", "UnaryOperator") or "callee" in y) else None
+            if el is not None:
+                out.append((y, at if at is not None else g.pos_deep(y)))
+                continue
+            if y["k"] == "DeclRefExpr" and y["ref"].get("kind") == "local" and y["ref"]["id"] not in seen:
+                did = y["ref"]["id"]
+                seen.add(did)
+                v = _locals(fn).get(did)
+                if v is not None and kids(v) and kids(v)[0] is not None:
+                    isref = v.get("isref") or (v.get("ty") or "").strip().endswith("&")
+                    before = len(out)
+                    levels_in(kids(v)[0], g.pos_deep(v), seen, out)
+                    if isref and len(out) == before and mentions_vector(fn, kids(v)[0], vectors):
+                        raise Undecidable("%s: the reference `%s` is bound to a level of a stack in a form that is not understood (%s)"
+                                          % (fn.nloc(v), v.get("name"), dtable.describe(kids(v)[0])[:80]))
+                for u in uses_of(fn, did):
+                    if _is_write(fn, u):
+                        pu = fn.parent(u)
+                        while pu is not None and pu["k"] in WRAPPERS:
+                            pu = fn.parent(pu)
+                        b = match.binop(pu, ("=",)) if pu is not None else None
+                        if b:
+                            levels_in(b[2], g.pos_deep(pu), seen, out)
+                continue
+            if this_member_access(y) and y.get("member") in vectors:
+                par = fn.parent(y)
+                while par is not None and par["k"] in WRAPPERS:
+                    par = fn.parent(par)
+                if par is not None and "callee" in par and par.get("member_call") and par["callee"]["name"] in ("size", "empty", "capacity"):
+                    continue
+                raise Undecidable("%s: a stack of levels is used in a form that is not understood on the way to a hand-out (%s)"
+                                  % (fn.nloc(y), dtable.describe(par if par is not None else y)[:80]))
+            stack.extend(kids(y))
+
+    two = None
+    count = 0
+    per_hand = []
+    for h in hands:
+        lv = []
+        levels_in(h, None, set(), lv)
+        per_hand.append((h, lv))
+    if not incs:
+        # a function that does not advance this cursor: of interest only if it gives away (enqueues) buckets of a level of this stack
+        if not any(ctx_enqueue(h) and any((level_element(fn, y, sizes0, fields0) or (None,))[0] == C for y, at in lv) for h, lv in per_hand):
+            return 0
+    if others:
+        raise Undecidable("%s: %s gives away levels of %s and writes the front cursor %s in a way other than advancing it by one; which level is retired is not derived"
+                          % (fn.nloc(others[0]), fn.name, C, F))
+    succ, pred = _pgraph(g)
+    iset = set(ipos)
+
+    def fewest(src, dst, avoid=None):
+        """fewest advances of the cursor on a path from just after position src to position dst (not counting dst itself); None: no path"""
+        dist = {}
+        dq = collections.deque()
+        for q in succ.get(src, []):
+            dq.append((q, 0))
+        while dq:
+            q, d = dq.popleft()
+            if q in dist and dist[q] <= d:
+                continue
+            dist[q] = d
+            if q == dst or q == avoid:
+                continue
+            c = 1 if q in iset else 0
+            for r in succ.get(q, []):
+                if r not in dist or dist[r] > d + c:
+                    if c:
+                        dq.append((r, d + c))
+                    else:
+                        dq.appendleft((r, d))
+        return dist.get(dst)
+
+    exit_p = (g.exit, -1)
+    for h, lv in per_hand:
+        ph = g.pos(h)
+        if ph is None:
+            raise Undecidable("%s: the hand-out has no position in the CFG" % fn.nloc(h))
+        mine = []
+        for y, at in lv:
+            el = level_element(fn, y, sizes0, fields0)
+            if el is not None and el[0] == C:
+                mine.append((y, at))
+        if not mine:
+            if ctx_enqueue(h) and not lv and incs:
+                raise Undecidable("%s: a job is enqueued in %s, which advances %s, without reading a level of %s; which level is given away is not derived"
+                                  % (fn.nloc(h), fn.name, F, C))
+            continue
+        after_h = fewest(ph, exit_p)
+        if after_h is None:
+            continue            # no path from this hand-out to the return
+        for y, at in mine:
+            if at is None:
+                raise Undecidable("%s: the level taken from %s has no position in the CFG" % (fn.nloc(y), C))
+            # With F0 the cursor at entry, Fb where the level is taken, F1 at the return: this call retires the levels F0 .. F1-1.  The level
+            # taken is L = index(Fb); it must be one of them on every path: Fb - F0 >= -(L - Fb) and F1 - Fb > L - Fb.
+            between = 0 if at == ph else fewest(at, ph, avoid=at)
+            if between is None:
+                between = 0 if g.dominates(at, ph) or at[0] == ph[0] else None
+            if between is None:
+                raise Undecidable("%s: the hand-out is not reached from the place where the level is taken (%s)" % (fn.nloc(h), dtable.describe(y)[:60]))
+            post = between + after_h
+            pre = fewest((g.entry, -1), at)
+            if pre is None:
+                continue
+            reached_by_inc = any(g.reachable(p, at) for p in ipos)
+            for nn in (1, 2, 3, 4):
+                for ff in range(min(pre, nn), nn):          # the cursor was advanced `pre` times before the level is taken
+                    el = level_element(fn, y, dict((v, nn) for v in vectors), dict((f, ff) for f in cursors))
+                    if el is None or el[1] is None:
+                        raise Undecidable("%s: the index of the level taken from %s is not understood (%s)" % (fn.nloc(y), C, dtable.describe(y)[:80]))
+                    delta = el[1] - ff
+                    low_ok = delta >= -pre
+                    low_bad = delta < 0 and not reached_by_inc
+                    high_bad = delta > post - 1
+                    if not high_bad and not low_bad:
+                        if not low_ok:
+                            raise Undecidable("%s: `%s` is a level below the cursor %s; whether the cursor was advanced past it in this call on every path "
+                                              "is not derived" % (fn.nloc(y), dtable.describe(y)[:60], F))
+                        continue
+                    if nn >= 2:
+                        if two is None:
+                            two = can_hold_two(fns, C)
+                        if not two:
+                            raise Undecidable("%s: %s takes level %d of %d while the cursor is at %d, but the class is not seen to push onto a non-empty %s"
+                                              % (fn.nloc(y), dtable.describe(y)[:60], el[1], nn, ff, C))
+                    if high_bad:
+                        f0 = ff - pre
+                        retired = "no level at all" if pre + post == 0 else \
+                            ("level %d" % f0 if pre + post == 1 else "the levels %d..%d" % (f0, f0 + pre + post - 1))
+                        ck.violation("FRONT-LEVEL", fn.qname, sig if delta > 0 or not incs else sig + ":retire",
+                                     "%s gives away (ctx.enqueue) the remaining buckets of `%s`: with %d level(s) on %s and %s = %d where the level is taken "
+                                     "that is level %d. On a path through this hand-out %s is advanced %d time(s) before and %d time(s) after that point, so the call "
+                                     "retires %s - not level %d. A level the owner still works on is given away (the owner computes its LCPs, or hands it out again, "
+                                     "while other threads sort its buckets), and what is left of a retired level that was not given away is never sorted"
+                                     % (fn.name, dtable.describe(y)[:60], nn, C, F, ff, el[1], F, pre, post, retired, el[1]), fn.nloc(y))
+                    else:
+                        ck.violation("FRONT-LEVEL", fn.qname, sig + ":below",
+                                     "%s gives away the buckets of `%s`: with %s = %d that is level %d, a level below the front cursor that an earlier call has "
+                                     "retired and given away already" % (fn.name, dtable.describe(y)[:60], F, ff, el[1]), fn.nloc(y))
+                    return 1
+        count += 1
+    if not count:
+        if not incs:
+            return 0
+        raise Undecidable("%s: %s advances the front cursor %s of %s, but no hand-out of a level of %s is found in it" % (fn.loc, fn.name, F, C, C))
+    binds = []
+    for h, lv in per_hand:
+        binds += [at for y, at in lv if at is not None]
+    for a in ipos:
+        for b in ipos:
+            if g.path_between_avoiding(a, b, binds) is not None:
+                raise Undecidable("%s: %s can be advanced twice without a level being taken in between; which levels are retired is not derived" % (fn.nloc(incs[0]), F))
+    ck.ok("FRONT-LEVEL", tag, "%d hand-out(s) (ctx.enqueue): the level read is among those the call retires by advancing %s, for every stack height 1..4 "
+          "and every cursor position" % (count, F))
+    return 1
+
+
 def run(ck):
     ck.explanation = (
         "Sortedness and LCP values depend on values and are not decided. Decided ownership/ordering clauses: USE-AFTER-RELEASE - in every member "
@@ -2187,7 +3185,9 @@ def run(ck):
         "this, giving up the job's own claim on the phase counter, or enqueuing a job while no handle is held); ADD-BEFORE-ENQUEUE / HANDLE-PAIR; "
         "RMW-RESULT (completion decided by the decrement's own result, acq_rel or stronger); PACKED-LCP-MASK (every read of the packed splitter_lcp byte selects the LCP or the flag with the builder's mask); PHASE-ARM (pwork_ armed with the number of jobs before "
         "the first one is enqueued); COMPLETION-BARRIER; COPY-BACK on all paths of the leaf sorter and on every path to a ctx.donesize() report "
-        "of a range that is not handed on. Two genuine use-after-free defects were found "
+        "of a range that is not handed on; CLASSIFY-BUCKET (every descent routine whose result classify() stores computes bucket = 2 * #{splitters < key} + "
+        "[key is a splitter] - evaluated on the tree that build() makes of a sorted sample, for every position of a key relative to the splitters); "
+        "FRONT-LEVEL (work sharing hands out the buckets of the level at the front cursor of a stack and retires exactly that level). Two genuine use-after-free defects were found "
         "(distribute_finished, loop bound re-read after the last enqueue) and fixed. The ThreadPool itself is C10.")
     tu = ir.extract("witness/C04_parallel_sample_sort.cpp")
     for fn in tu.functions:
@@ -2232,10 +3232,14 @@ def run(ck):
             ck.guarded(lambda fn=fn: fin_sites.append(check_finished_ranges(ck, tu, fn, fin_memo)))
     ck.guarded(lambda: ck.require(sum(1 for n in fin_sites if n) >= 4 or ck.deferred,
                                   "places where a range is reported finished (ctx.donesize) not found in the sorters"))
+    ck.guarded(lambda: ck.require(check_classifier(ck, tu) >= 2, "no classifier class (SSClassify*) with descent routines stored by classify() found"))
     ck.guarded(lambda: check_packed_lcp(ck, tu))
     ck.guarded(lambda: check_result_array(ck, tu))
     ck.guarded(lambda: check_stale_data_pointer(ck, tu))
     ck.guarded(lambda: ck.require(check_array_bounds(ck, tu) >= 10, "fixed-size arrays of the sample sort classes not found"))
+    ck.guarded(lambda: ck.require(check_front_level(ck, tu) >= 2, "no function that advances a front cursor of a stack of levels found in PS5SmallsortJob"))
+    ck.floor("CLASSIFY-BUCKET", 2)      # per class instance: the one-key and the interleaved descent of the default classifier
+    ck.floor("FRONT-LEVEL", 2)          # per function: sample_sort_free_work, mkqs_free_work
     ck.floor("PACKED-LCP-MASK", 12)
     ck.floor("USE-AFTER-RELEASE", 40)
     ck.floor("ADD-BEFORE-ENQUEUE", 12)
